@@ -5,7 +5,7 @@
    DuckDB identifiers are case-insensitive even when quoted). *)
 From Coq Require Import ZArith String Ascii List Bool.
 Import ListNotations.
-From VTL Require Import Base.Val Model.Table Model.Scalar Model.Expr Model.Names Proofs.ExprP.
+From VTL Require Import Base.Val Model.Table Model.Scalar Model.Expr Model.Names Proofs.ExprP Proofs.NamesP.
 Open Scope string_scope.
 
 (* exact lookup: a component is found under its own name only; a case variant is a different component *)
@@ -47,6 +47,23 @@ Proof.
   - rewrite IH. apply orb_true_r.
 Qed.
 
+(* exact characterisation of the case-insensitive store (Proofs/NamesP.v): it fails ONLY on two names equal up to case, it fails on
+   every exact duplicate the specification store refuses, and on structures without case variants the two stores agree — the
+   divergence of the engine from the specification is confined to the recorded finding *)
+Theorem C29_catalog_error_only_on_case_collision : forall cols,
+  create_table_ci cols = CatalogError ->
+  exists pre a mid b post, cols = (pre ++ a :: mid ++ b :: post)%list /\ same_upto_case a b = true.
+Proof. exact catalog_error_only_on_case_collision. Qed.
+
+Theorem C29_catalog_agrees_without_case_variants : forall cols,
+  has_ci_dup cols = false -> create_table_ci cols = create_table_exact cols.
+Proof. exact catalog_agrees_without_case_variants. Qed.
+
+Example C29_agreement_nonvacuous :
+  has_ci_dup ["Id_1"; "Id_2"; "Me_1"; "At_1"] = false /\ create_table_ci ["Id_1"; "Id_2"; "Me_1"; "At_1"] = Created /\
+  has_ci_dup ["Id_1"; "Me_1"; "Me_1"] = true /\ create_table_exact ["Id_1"; "Me_1"; "Me_1"] = CatalogError.
+Proof. vm_compute. repeat split. Qed.
+
 Example C29_spec_example :
   let D := mkD ["Id_1"] ["Me_1"; "me_1"] [([VInt 1], [VInt 10; VInt 20])] in
   bind (d_calc D [("ME_1", CBin Add (CCol "Me_1") (CCol "me_1"))]) (fun d => Ok (d_ms d, map snd (d_rows d)))
@@ -57,3 +74,5 @@ Print Assumptions C29_lookup_exact.
 Print Assumptions C29_keep_drop_distinguish_case.
 Print Assumptions C29_catalog_collision_refuted.
 Print Assumptions C29_catalog_collision_general.
+Print Assumptions C29_catalog_error_only_on_case_collision.
+Print Assumptions C29_catalog_agrees_without_case_variants.
